@@ -106,7 +106,12 @@ def discharge(I, name, goal, kind="vc", detail=""):
     s = I.solver
     s.push()
     s.add(neg)
+    if kind == "control":
+        s.set("timeout", 3000)
     r = s.check()
+    if kind == "control":
+        from .engine import SOLVER_TIMEOUT_MS
+        s.set("timeout", SOLVER_TIMEOUT_MS)
     model = None
     backend = "z3-5.1(py,incremental)"
     if r == z3.sat:
@@ -115,7 +120,7 @@ def discharge(I, name, goal, kind="vc", detail=""):
     s.pop()
     STATS["z3py"] += 1
     smt2 = None
-    if r == z3.unknown:
+    if r == z3.unknown and kind != "control":
         f = z3.Solver()
         f.set("timeout", 20000)
         f.add(*assertions)
@@ -125,7 +130,7 @@ def discharge(I, name, goal, kind="vc", detail=""):
         if r == z3.sat:
             model = extract_model(I, f.model())
     verdict = _v(r)
-    if verdict == "unknown":
+    if verdict == "unknown" and kind != "control":
         smt2 = smt2_of(assertions[:-1], neg)
         v, _ = cvc5_cli(smt2, 30)
         STATS["cvc5"] += 1
